@@ -381,6 +381,15 @@ def run_property(prop_name, tier, replay=None):
         return 0
 
     rep = Report(prop, tier, seed)
+    import atexit
+    import shutil
+    import tempfile
+
+    os.makedirs(env.WORK_ROOT, exist_ok=True)
+    run_dir = tempfile.mkdtemp(prefix=f"run{os.getpid()}_", dir=env.WORK_ROOT)
+    os.environ["VERIF_RUN_DIR"] = run_dir  # scratch directories of every process of this run live below it
+    parent = os.getpid()
+    atexit.register(lambda: os.getpid() == parent and shutil.rmtree(run_dir, ignore_errors=True))
     try:
         if hasattr(prop, "prepare"):
             prop.prepare(tier, seed)  # parent-only work that must be finished before any shard starts (shared immutable inputs)
